@@ -175,7 +175,19 @@ def run_translator():
         failed, n = cxx2v.write_generated(REPO, COQDIR)
     except Exception as ex:            # an unreadable source file etc.: every translated definition is missing
         failed, n = [('*', 'translator', str(ex))], 0
-    TRANSLATOR.update(failed=[list(f) for f in failed], translated=n, ran=True)
+    failed = [list(f) for f in failed]
+    # the configurations the models are run with (ISAS: abi, masks, fma per compiler flags) must be the ones the source selects
+    # under those flags: gen_isa_table is config.h / macros.h / simd_vector_abi.h evaluated from the compiler's predefined macros
+    try:
+        txt = open(os.path.join(COQDIR, 'Gen', 'Generated.v')).read()
+        m = re.search(r'Definition gen_isa_table\s*:[^=]*:=\s*\[(.*?)\]\.', txt, flags=re.S)
+        if m:
+            rows = [tuple(x.strip() for x in r.split(',')) for r in re.findall(r'\(([^()]*)\)', m.group(1))]
+            want = [(str(ISAS[k][1]), 'true' if ISAS[k][2] else 'false', 'true' if ISAS[k][3] else 'false') for k in ('scalar', 'sse2', 'sse42', 'avx', 'avx2', 'avx512')]
+            if [r[:3] for r in rows] != want:
+                failed.append(['gen_isa_table', 'lib/common.py ISAS', 'the configurations assumed by the harness %s differ from what the source selects under the same flags %s' % (want, [r[:3] for r in rows])])
+    except OSError: pass
+    TRANSLATOR.update(failed=failed, translated=n, ran=True)
 
 def coq_make(targets, timeout=1800):
     """(re)build the given .vo targets with a full (non -vos) build; returns (ok, log)"""
